@@ -2,6 +2,7 @@
 import os, random, hashlib, logging, tempfile, shutil, atexit
 
 _real_urandom = os.urandom
+_real_random_urandom = getattr(random, '_urandom', None)      # what random.SystemRandom and the secrets module read
 _state = {'home': None, 'pid': None}
 
 
@@ -23,6 +24,8 @@ def seed_case(*parts):
     """key os.urandom and the module-level random generator by (seed, case)"""
     d = Drbg(*parts)
     os.urandom = d.read
+    if _real_random_urandom is not None:
+        random._urandom = d.read
     random.seed(int.from_bytes(_h('random', *parts)[:8], 'big'))
     return d
 
@@ -34,6 +37,8 @@ def rng(*parts):
 
 def restore():
     os.urandom = _real_urandom
+    if _real_random_urandom is not None:
+        random._urandom = _real_random_urandom
 
 
 def scratch_home():
